@@ -42,231 +42,244 @@ def check(ctx):
     ps = param_names(hr)
     ctx.need(ps[:6] == ["self", "response", "method", "uri", "headers", "redirectCount"] and len(ps) >= 7, "_handleRedirect(self, response, method, uri, headers, redirectCount, requestURI)")
     RU = ps[6]
-
-    # ---- (a) pairing ------------------------------------------------------------------------------
     reqs = named_calls(g, "self._agent.request")
-    ctx.check(len(reqs) == 1, "pairing/next-hop", q, f"{len(reqs)} inner-agent request sites in _handleRedirect (one expected)")
     conts = [(n, c) for n, c in call_sites(g, lambda c: call_attr(c) == "addCallback" and c.args and src(c.args[0]) == "self._handleResponse")]
-    ctx.check(len(conts) == 1, "pairing/next-hop", q + " | continuation", f"{len(conts)} continuations into _handleResponse (one expected)")
-    for (rn, rc), (cn, cc) in zip(reqs, conts):
-        b = _bind(cc.args[1:], hp, 2)
-        target = rc.args[1] if len(rc.args) > 1 else None
-        ok = RU in b and target is not None and src(b[RU]) == src(target) and isinstance(target, ast.Name)
-        ctx.check(ok, "pairing/next-hop", ctx.construct(q, cc),
-                  f"the URI remembered as the next hop's requestURI ({src(b.get(RU)) if b.get(RU) is not None else 'nothing'}) is not the URI just requested ({src(target)}): "
-                  "a relative Location on the following hop is resolved against the wrong request (a -> http://b/p/q -> 'r' is fetched from a)")
-        ctx.check(src(b.get("uri")) == "uri", "pairing/original-uri", ctx.construct(q, cc) + " | uri", "the original request URI is not carried on unchanged (same-origin test and errors refer to it)")
-        ctx.check(src(b.get("method")) == src(rc.args[0]), "pairing/method", ctx.construct(q, cc) + " | method", "the method remembered for the next hop is not the method just used")
-        w = g.must_precede([rn], [cn])
-        ctx.check(w is None, "pairing/next-hop", ctx.construct(q, cc) + " | after request", "the continuation is attached to something other than the request just made", witness=g.describe(w))
-        # the requested URI is the resolved location
-        if isinstance(target, ast.Name):
-            defs = local_assignments(hr, target.id)
-            ok = len(defs) == 1 and isinstance(defs[0].value, ast.Call) and call_name(defs[0].value) == "self._resolveLocation"
-            ctx.check(ok, "pairing/resolve-base", ctx.construct(q, rc), "the requested URI is not the Location resolved by _resolveLocation")
-            if ok:
-                a = defs[0].value.args
-                ctx.check(len(a) == 2 and src(a[0]) == RU, "pairing/resolve-base", ctx.construct(q, defs[0]),
-                          f"the Location is resolved against `{src(a[0]) if a else '?'}`, not against the URI of the request that received the redirect ({RU})")
-                lh = [s for s in walk_local(hr) if isinstance(s, ast.Assign) and isinstance(s.value, ast.Call) and call_attr(s.value) == "getRawHeaders" and
-                      s.value.args and _const(s.value.args[0]) in (b"location", b"Location")]
-                ok2 = len(lh) == 1 and len(a) == 2 and src(a[1]) == f"{src(lh[0].targets[0])}[0]"
-                ctx.check(ok2, "pairing/resolve-base", ctx.construct(q, defs[0]) + " | location value", "the value resolved is not the first Location header of the response")
-    # requestURI defaults to uri only when None
-    for st in local_assignments(hr, RU):
-        ok = all(none_guard(g, i, RU, True) for i in g.ids_of(st)) and src(st.value) == "uri"
-        ctx.check(ok, "pairing/resolve-base", ctx.construct(q, st), f"{RU} is overwritten other than by the `is None -> uri` default (first hop)")
-    d = hr.args.defaults
-    ctx.check(len(d) >= 1 and isinstance(d[-1], ast.Constant) and d[-1].value is None, "pairing/resolve-base", q + " | default", f"{RU} does not default to None")
-    # _resolveLocation(requestURI, location) -> _urljoin(requestURI, location)
-    rl = ctx.func(CL, "RedirectAgent._resolveLocation")
-    rets = [s for s in walk_local(rl) if isinstance(s, ast.Return)]
-    ok = len(rets) == 1 and isinstance(rets[0].value, ast.Call) and call_name(rets[0].value) == "_urljoin" and [src(a) for a in rets[0].value.args] == param_names(rl)[1:3]
-    ctx.check(ok, "pairing/resolve-base", Q + "_resolveLocation", "_resolveLocation does not join (base, location) in that order")
-
-    # hand-overs in _handleResponse and request()
     gp = ctx.cfg(hp)
     qp = Q + "_handleResponse"
     hsites = named_calls(gp, "self._handleRedirect")
-    ctx.check(len(hsites) == 2, "pairing/hand-over", qp, f"{len(hsites)} _handleRedirect call sites (two expected)")
-    for n, c in hsites:
-        b = _bind(c.args, hr, 1)
-        same = all(src(b.get(p)) == p for p in ("response", "uri", "headers", "redirectCount", RU))
-        ctx.check(same, "pairing/hand-over", ctx.construct(qp, c), "response/uri/headers/redirectCount/requestURI are not handed to _handleRedirect unchanged and in order")
-    rcalls = [c for c in walk_local(rq) if isinstance(c, ast.Call) and call_attr(c) == "addCallback" and c.args and src(c.args[0]) == "self._handleResponse"]
-    ctx.check(len(rcalls) == 1, "pairing/hand-over", Q + "request", "request() does not continue into _handleResponse exactly once")
-    first = [c for c in walk_local(rq) if isinstance(c, ast.Call) and call_name(c) == "self._agent.request"]
-    for c in rcalls:
-        b = _bind(c.args[1:], hp, 2)
-        ok = len(first) == 1 and src(b.get("method")) == src(first[0].args[0]) and src(b.get("uri")) == src(first[0].args[1]) and src(b.get("headers")) == src(first[0].args[2]) and RU not in b
-        ctx.check(ok, "pairing/hand-over", ctx.construct(Q + "request", c), "the first hop does not remember the method/uri/headers it requested")
-        ctx.check(_const(b.get("redirectCount")) == 0, "limit/count", ctx.construct(Q + "request", c) + " | count", "the redirect count does not start at 0")
+
+    # ---- (a) pairing ------------------------------------------------------------------------------
+    with ctx.section("pairing"):
+        pass
+        reqs = named_calls(g, "self._agent.request")
+        ctx.check(len(reqs) == 1, "pairing/next-hop", q, f"{len(reqs)} inner-agent request sites in _handleRedirect (one expected)")
+        conts = [(n, c) for n, c in call_sites(g, lambda c: call_attr(c) == "addCallback" and c.args and src(c.args[0]) == "self._handleResponse")]
+        ctx.check(len(conts) == 1, "pairing/next-hop", q + " | continuation", f"{len(conts)} continuations into _handleResponse (one expected)")
+        for (rn, rc), (cn, cc) in zip(reqs, conts):
+            b = _bind(cc.args[1:], hp, 2)
+            target = rc.args[1] if len(rc.args) > 1 else None
+            ok = RU in b and target is not None and src(b[RU]) == src(target) and isinstance(target, ast.Name)
+            ctx.check(ok, "pairing/next-hop", ctx.construct(q, cc),
+                      f"the URI remembered as the next hop's requestURI ({src(b.get(RU)) if b.get(RU) is not None else 'nothing'}) is not the URI just requested ({src(target)}): "
+                      "a relative Location on the following hop is resolved against the wrong request (a -> http://b/p/q -> 'r' is fetched from a)")
+            ctx.check(src(b.get("uri")) == "uri", "pairing/original-uri", ctx.construct(q, cc) + " | uri", "the original request URI is not carried on unchanged (same-origin test and errors refer to it)")
+            ctx.check(src(b.get("method")) == src(rc.args[0]), "pairing/method", ctx.construct(q, cc) + " | method", "the method remembered for the next hop is not the method just used")
+            w = g.must_precede([rn], [cn])
+            ctx.check(w is None, "pairing/next-hop", ctx.construct(q, cc) + " | after request", "the continuation is attached to something other than the request just made", witness=g.describe(w))
+            # the requested URI is the resolved location
+            if isinstance(target, ast.Name):
+                defs = local_assignments(hr, target.id)
+                ok = len(defs) == 1 and isinstance(defs[0].value, ast.Call) and call_name(defs[0].value) == "self._resolveLocation"
+                ctx.check(ok, "pairing/resolve-base", ctx.construct(q, rc), "the requested URI is not the Location resolved by _resolveLocation")
+                if ok:
+                    a = defs[0].value.args
+                    ctx.check(len(a) == 2 and src(a[0]) == RU, "pairing/resolve-base", ctx.construct(q, defs[0]),
+                              f"the Location is resolved against `{src(a[0]) if a else '?'}`, not against the URI of the request that received the redirect ({RU})")
+                    lh = [s for s in walk_local(hr) if isinstance(s, ast.Assign) and isinstance(s.value, ast.Call) and call_attr(s.value) == "getRawHeaders" and
+                          s.value.args and _const(s.value.args[0]) in (b"location", b"Location")]
+                    ok2 = len(lh) == 1 and len(a) == 2 and src(a[1]) == f"{src(lh[0].targets[0])}[0]"
+                    ctx.check(ok2, "pairing/resolve-base", ctx.construct(q, defs[0]) + " | location value", "the value resolved is not the first Location header of the response")
+        # requestURI defaults to uri only when None
+        for st in local_assignments(hr, RU):
+            ok = all(none_guard(g, i, RU, True) for i in g.ids_of(st)) and src(st.value) == "uri"
+            ctx.check(ok, "pairing/resolve-base", ctx.construct(q, st), f"{RU} is overwritten other than by the `is None -> uri` default (first hop)")
+        d = hr.args.defaults
+        ctx.check(len(d) >= 1 and isinstance(d[-1], ast.Constant) and d[-1].value is None, "pairing/resolve-base", q + " | default", f"{RU} does not default to None")
+        # _resolveLocation(requestURI, location) -> _urljoin(requestURI, location)
+        rl = ctx.func(CL, "RedirectAgent._resolveLocation")
+        rets = [s for s in walk_local(rl) if isinstance(s, ast.Return)]
+        ok = len(rets) == 1 and isinstance(rets[0].value, ast.Call) and call_name(rets[0].value) == "_urljoin" and [src(a) for a in rets[0].value.args] == param_names(rl)[1:3]
+        ctx.check(ok, "pairing/resolve-base", Q + "_resolveLocation", "_resolveLocation does not join (base, location) in that order")
+
+        # hand-overs in _handleResponse and request()
+        gp = ctx.cfg(hp)
+        qp = Q + "_handleResponse"
+        hsites = named_calls(gp, "self._handleRedirect")
+        ctx.check(len(hsites) == 2, "pairing/hand-over", qp, f"{len(hsites)} _handleRedirect call sites (two expected)")
+        for n, c in hsites:
+            b = _bind(c.args, hr, 1)
+            same = all(src(b.get(p)) == p for p in ("response", "uri", "headers", "redirectCount", RU))
+            ctx.check(same, "pairing/hand-over", ctx.construct(qp, c), "response/uri/headers/redirectCount/requestURI are not handed to _handleRedirect unchanged and in order")
+        rcalls = [c for c in walk_local(rq) if isinstance(c, ast.Call) and call_attr(c) == "addCallback" and c.args and src(c.args[0]) == "self._handleResponse"]
+        ctx.check(len(rcalls) == 1, "pairing/hand-over", Q + "request", "request() does not continue into _handleResponse exactly once")
+        first = [c for c in walk_local(rq) if isinstance(c, ast.Call) and call_name(c) == "self._agent.request"]
+        for c in rcalls:
+            b = _bind(c.args[1:], hp, 2)
+            ok = len(first) == 1 and src(b.get("method")) == src(first[0].args[0]) and src(b.get("uri")) == src(first[0].args[1]) and src(b.get("headers")) == src(first[0].args[2]) and RU not in b
+            ctx.check(ok, "pairing/hand-over", ctx.construct(Q + "request", c), "the first hop does not remember the method/uri/headers it requested")
+            ctx.check(_const(b.get("redirectCount")) == 0, "limit/count", ctx.construct(Q + "request", c) + " | count", "the redirect count does not start at 0")
 
     # ---- (b) limit / missing location --------------------------------------------------------------
-    raises = g.ids(lambda x: x.kind == "stmt" and isinstance(x.ast, ast.Raise))
-    want = lin_expect({"redirectCount": 1, "self._redirectLimit": -1}, 0)
-    lim = [r for r in raises if any(lincmp(g.node(t).ast, negate=(lab == "F")) == want for t, lab in g.edge_guards(r))]
-    ctx.check(len(lim) == 1, "limit/test", q, "InfiniteRedirection is not raised exactly when redirectCount >= the redirect limit (at most `limit` redirects are followed)")
-    for rn, rc in reqs:
-        notyet = lin_expect({"redirectCount": -1, "self._redirectLimit": 1}, 1)
-        ok = any(lincmp(g.node(t).ast, negate=(lab == "F")) == notyet for t, lab in g.edge_guards(rn))
-        ctx.check(ok, "limit/test", ctx.construct(q, rc), "the next request is made without redirectCount < limit having been established")
-    for cn, cc in conts:
-        b = _bind(cc.args[1:], hp, 2)
-        lc = lincmp(ast.Compare(left=b["redirectCount"], ops=[ast.GtE()], comparators=[ast.Constant(value=0)])) if "redirectCount" in b else None
-        ctx.check(lc == lin_expect({"redirectCount": 1}, -1), "limit/count", ctx.construct(q, cc) + " | count", "the count passed to the next hop is not redirectCount + 1")
-    noloc = [r for r in raises if any(src(g.node(t).ast) == "locationHeaders" and lab == "F" for t, lab in g.edge_guards(r))
-             or any(lincmp(g.node(t).ast, negate=(lab == "F")) == lin_expect({"len(locationHeaders)": -1}, 0) for t, lab in g.edge_guards(r))]
-    ctx.check(len(noloc) == 1 and "RedirectWithNoLocation" in " ".join(src(s) for s in walk_local(hr) if isinstance(s, ast.Assign)), "limit/no-location", q,
-              "a redirect without a Location header is not refused")
-    for r in raises:
-        ctx.check("ResponseFailed" in src(g.node(r).ast), "limit/no-location", ctx.construct(q, g.node(r).ast), "the refusal is not reported as ResponseFailed")
+    with ctx.section("limit"):
+        pass
+        raises = g.ids(lambda x: x.kind == "stmt" and isinstance(x.ast, ast.Raise))
+        want = lin_expect({"redirectCount": 1, "self._redirectLimit": -1}, 0)
+        lim = [r for r in raises if any(lincmp(g.node(t).ast, negate=(lab == "F")) == want for t, lab in g.edge_guards(r))]
+        ctx.check(len(lim) == 1, "limit/test", q, "InfiniteRedirection is not raised exactly when redirectCount >= the redirect limit (at most `limit` redirects are followed)")
+        for rn, rc in reqs:
+            notyet = lin_expect({"redirectCount": -1, "self._redirectLimit": 1}, 1)
+            ok = any(lincmp(g.node(t).ast, negate=(lab == "F")) == notyet for t, lab in g.edge_guards(rn))
+            ctx.check(ok, "limit/test", ctx.construct(q, rc), "the next request is made without redirectCount < limit having been established")
+        for cn, cc in conts:
+            b = _bind(cc.args[1:], hp, 2)
+            lc = lincmp(ast.Compare(left=b["redirectCount"], ops=[ast.GtE()], comparators=[ast.Constant(value=0)])) if "redirectCount" in b else None
+            ctx.check(lc == lin_expect({"redirectCount": 1}, -1), "limit/count", ctx.construct(q, cc) + " | count", "the count passed to the next hop is not redirectCount + 1")
+        noloc = [r for r in raises if any(src(g.node(t).ast) == "locationHeaders" and lab == "F" for t, lab in g.edge_guards(r))
+                 or any(lincmp(g.node(t).ast, negate=(lab == "F")) == lin_expect({"len(locationHeaders)": -1}, 0) for t, lab in g.edge_guards(r))]
+        ctx.check(len(noloc) == 1 and "RedirectWithNoLocation" in " ".join(src(s) for s in walk_local(hr) if isinstance(s, ast.Assign)), "limit/no-location", q,
+                  "a redirect without a Location header is not refused")
+        for r in raises:
+            ctx.check("ResponseFailed" in src(g.node(r).ast), "limit/no-location", ctx.construct(q, g.node(r).ast), "the refusal is not reported as ResponseFailed")
 
     # ---- (c) credentials -------------------------------------------------------------------------------
-    so = [s for s in walk_local(hr) if isinstance(s, ast.Assign) and isinstance(s.targets[0], ast.Name) and isinstance(s.value, ast.BoolOp)]
-    ctx.check(len(so) == 1, "credentials/same-origin", q, "the same-origin decision (one conjunction) was not found")
-    strip_ok = False
-    for s in so:
-        flag = s.targets[0].id
-        v = s.value
-        attrs, objs = set(), set()
-        ok = isinstance(v.op, ast.And)
-        for e in v.values:
-            if isinstance(e, ast.Compare) and len(e.ops) == 1 and isinstance(e.ops[0], ast.Eq) and isinstance(e.left, ast.Attribute) and isinstance(e.comparators[0], ast.Attribute) \
-                    and e.left.attr == e.comparators[0].attr:
-                attrs.add(e.left.attr)
-                objs.add(frozenset([src(e.left.value), src(e.comparators[0].value)]))
-            else:
-                ok = False
-        ok = ok and attrs == {"scheme", "host", "port"} and len(objs) == 1
-        ctx.check(ok, "credentials/same-origin", ctx.construct(q, s), f"same origin is not the conjunction of scheme, host and port equality (compares {sorted(attrs)})")
-        if ok:
-            a, b_ = sorted(next(iter(objs)))
-            defs = {}
-            for nm in (a, b_):
-                ds = [x for x in local_assignments(hr, nm)]
-                if len(ds) == 1 and isinstance(ds[0].value, ast.Call) and call_name(ds[0].value) == "URI.fromBytes" and len(ds[0].value.args) == 1:
-                    defs[nm] = src(ds[0].value.args[0])
-            tgt = src(reqs[0][1].args[1]) if reqs else "location"
-            ok2 = sorted(defs.values()) == sorted(["uri", tgt])
-            if not ok2 and sorted(defs.values()) == sorted([RU, tgt]) and reqs and conts:
-                # comparing with the previous hop is equivalent iff the (possibly stripped) headers just sent are the ones carried on:
-                # then unstripped headers only ever travel along a chain of pairwise same-origin hops starting at the original
-                carried = _bind(conts[0][1].args[1:], hp, 2).get("headers")
-                ok2 = carried is not None and len(reqs[0][1].args) > 2 and src(carried) == src(reqs[0][1].args[2])
-            ctx.check(ok2, "credentials/same-origin", ctx.construct(q, s) + " | operands",
-                      f"the origins compared are those of {sorted(defs.values())}: sensitive headers are not confined to the ORIGINAL request's origin "
-                      f"(compare uri with {tgt}, or the previous hop while carrying the stripped headers on)")
-        # stripping on the not-same-origin edge
-        for rn, rc in reqs:
-            hname = src(rc.args[2]) if len(rc.args) > 2 else None
-            strips = []
-            for n, st in assign_sites(g, lambda x: src(x) == hname):
-                val = st.value if isinstance(st, ast.Assign) else None
-                comp = next((x for x in ast.walk(val) if isinstance(x, (ast.DictComp, ast.ListComp, ast.GeneratorExp))), None) if val is not None else None
-                if comp is None or len(comp.generators) != 1 or call_attr(comp.generators[0].iter) != "getAllRawHeaders":
-                    continue
-                gen = comp.generators[0]
-                name_var = src(gen.target.elts[0]) if isinstance(gen.target, ast.Tuple) else None
-                filt = [i for i in gen.ifs if isinstance(i, ast.Compare) and len(i.ops) == 1 and isinstance(i.ops[0], ast.NotIn) and src(i.left) == name_var and
-                        src(i.comparators[0]) == "self._sensitiveHeaderNames"]
-                ctx.check(len(filt) == 1 and len(gen.ifs) == 1, "credentials/filter", ctx.construct(q, st),
-                          "the rebuilt header set is not exactly `every header whose name is not in self._sensitiveHeaderNames`")
-                if filt:
-                    strips.append(n)
-            ctx.check(bool(strips), "credentials/stripped-cross-origin", q + " | strip site", "no statement rebuilds the headers without the sensitive names")
-            tests = [t for t in g.ids(lambda x: x.kind == "test") if src(g.node(t).ast) == flag]
-            ctx.check(len(tests) == 1, "credentials/stripped-cross-origin", q + " | test", "the same-origin flag is not tested exactly once")
-            for t in tests:
-                cross = [d for d, l in g.succ[t] if l == "F"]
-                w = g.must_pass(cross, strips, to=[rn], exc=False, strict=False) if cross and cross[0] not in strips else None
-                ctx.check(w is None and bool(cross), "credentials/stripped-cross-origin", ctx.construct(q, rc),
-                          "on the cross-origin edge the request can be sent with the unfiltered headers (Authorization/Cookie leak to another origin)", witness=g.describe(w))
-                strip_ok = True
-            # the only way around the same-origin test is `headers` being falsy
-            w = g.path([g.entry], [rn], avoid=tests, edge_ok=lambda a_, b2, l: l != "exc")
-            if w is not None:
-                skipped_by = [t for t in w if g.node(t).kind == "test" and src(g.node(t).ast) == hname]
-                ctx.check(bool(skipped_by), "credentials/stripped-cross-origin", ctx.construct(q, rc) + " | bypass",
-                          "the request can be reached without the same-origin decision although headers are present", witness=g.describe(w))
-    # default set and canonicalisation
-    dflt = mod.module_assign("_defaultSensitiveHeaders")
-    try:
-        names = set(const_eval(dflt)) if dflt is not None else None
-    except NotConst:
-        names = None
-    ctx.need(names is not None, "_defaultSensitiveHeaders constant")
-    need = {b"Authorization", b"Cookie", b"Proxy-Authorization"}
-    ctx.check(need <= names, "credentials/default-names", "twisted.web.client._defaultSensitiveHeaders", f"missing from the default sensitive set: {sorted(need - names)}")
-    hh = ctx.mod("web/http_headers.py")
-    cm = class_assigns(ctx.cls("web/http_headers.py", "_NameEncoder")).get("_caseMappings")
-    try:
-        case = const_eval(cm) if cm is not None else {}
-    except NotConst:
-        case = {}
+    with ctx.section("credentials"):
+        pass
+        so = [s for s in walk_local(hr) if isinstance(s, ast.Assign) and isinstance(s.targets[0], ast.Name) and isinstance(s.value, ast.BoolOp)]
+        ctx.check(len(so) == 1, "credentials/same-origin", q, "the same-origin decision (one conjunction) was not found")
+        strip_ok = False
+        for s in so:
+            flag = s.targets[0].id
+            v = s.value
+            attrs, objs = set(), set()
+            ok = isinstance(v.op, ast.And)
+            for e in v.values:
+                if isinstance(e, ast.Compare) and len(e.ops) == 1 and isinstance(e.ops[0], ast.Eq) and isinstance(e.left, ast.Attribute) and isinstance(e.comparators[0], ast.Attribute) \
+                        and e.left.attr == e.comparators[0].attr:
+                    attrs.add(e.left.attr)
+                    objs.add(frozenset([src(e.left.value), src(e.comparators[0].value)]))
+                else:
+                    ok = False
+            ok = ok and attrs == {"scheme", "host", "port"} and len(objs) == 1
+            ctx.check(ok, "credentials/same-origin", ctx.construct(q, s), f"same origin is not the conjunction of scheme, host and port equality (compares {sorted(attrs)})")
+            if ok:
+                a, b_ = sorted(next(iter(objs)))
+                defs = {}
+                for nm in (a, b_):
+                    ds = [x for x in local_assignments(hr, nm)]
+                    if len(ds) == 1 and isinstance(ds[0].value, ast.Call) and call_name(ds[0].value) == "URI.fromBytes" and len(ds[0].value.args) == 1:
+                        defs[nm] = src(ds[0].value.args[0])
+                tgt = src(reqs[0][1].args[1]) if reqs else "location"
+                ok2 = sorted(defs.values()) == sorted(["uri", tgt])
+                if not ok2 and sorted(defs.values()) == sorted([RU, tgt]) and reqs and conts:
+                    # comparing with the previous hop is equivalent iff the (possibly stripped) headers just sent are the ones carried on:
+                    # then unstripped headers only ever travel along a chain of pairwise same-origin hops starting at the original
+                    carried = _bind(conts[0][1].args[1:], hp, 2).get("headers")
+                    ok2 = carried is not None and len(reqs[0][1].args) > 2 and src(carried) == src(reqs[0][1].args[2])
+                ctx.check(ok2, "credentials/same-origin", ctx.construct(q, s) + " | operands",
+                          f"the origins compared are those of {sorted(defs.values())}: sensitive headers are not confined to the ORIGINAL request's origin "
+                          f"(compare uri with {tgt}, or the previous hop while carrying the stripped headers on)")
+            # stripping on the not-same-origin edge
+            for rn, rc in reqs:
+                hname = src(rc.args[2]) if len(rc.args) > 2 else None
+                strips = []
+                for n, st in assign_sites(g, lambda x: src(x) == hname):
+                    val = st.value if isinstance(st, ast.Assign) else None
+                    comp = next((x for x in ast.walk(val) if isinstance(x, (ast.DictComp, ast.ListComp, ast.GeneratorExp))), None) if val is not None else None
+                    if comp is None or len(comp.generators) != 1 or call_attr(comp.generators[0].iter) != "getAllRawHeaders":
+                        continue
+                    gen = comp.generators[0]
+                    name_var = src(gen.target.elts[0]) if isinstance(gen.target, ast.Tuple) else None
+                    filt = [i for i in gen.ifs if isinstance(i, ast.Compare) and len(i.ops) == 1 and isinstance(i.ops[0], ast.NotIn) and src(i.left) == name_var and
+                            src(i.comparators[0]) == "self._sensitiveHeaderNames"]
+                    ctx.check(len(filt) == 1 and len(gen.ifs) == 1, "credentials/filter", ctx.construct(q, st),
+                              "the rebuilt header set is not exactly `every header whose name is not in self._sensitiveHeaderNames`")
+                    if filt:
+                        strips.append(n)
+                ctx.check(bool(strips), "credentials/stripped-cross-origin", q + " | strip site", "no statement rebuilds the headers without the sensitive names")
+                tests = [t for t in g.ids(lambda x: x.kind == "test") if src(g.node(t).ast) == flag]
+                ctx.check(len(tests) == 1, "credentials/stripped-cross-origin", q + " | test", "the same-origin flag is not tested exactly once")
+                for t in tests:
+                    cross = [d for d, l in g.succ[t] if l == "F"]
+                    w = g.must_pass(cross, strips, to=[rn], exc=False, strict=False) if cross and cross[0] not in strips else None
+                    ctx.check(w is None and bool(cross), "credentials/stripped-cross-origin", ctx.construct(q, rc),
+                              "on the cross-origin edge the request can be sent with the unfiltered headers (Authorization/Cookie leak to another origin)", witness=g.describe(w))
+                    strip_ok = True
+                # the only way around the same-origin test is `headers` being falsy
+                w = g.path([g.entry], [rn], avoid=tests, edge_ok=lambda a_, b2, l: l != "exc")
+                if w is not None:
+                    skipped_by = [t for t in w if g.node(t).kind == "test" and src(g.node(t).ast) == hname]
+                    ctx.check(bool(skipped_by), "credentials/stripped-cross-origin", ctx.construct(q, rc) + " | bypass",
+                              "the request can be reached without the same-origin decision although headers are present", witness=g.describe(w))
+        # default set and canonicalisation
+        dflt = mod.module_assign("_defaultSensitiveHeaders")
+        try:
+            names = set(const_eval(dflt)) if dflt is not None else None
+        except NotConst:
+            names = None
+        ctx.need(names is not None, "_defaultSensitiveHeaders constant")
+        need = {b"Authorization", b"Cookie", b"Proxy-Authorization"}
+        ctx.check(need <= names, "credentials/default-names", "twisted.web.client._defaultSensitiveHeaders", f"missing from the default sensitive set: {sorted(need - names)}")
+        hh = ctx.mod("web/http_headers.py")
+        cm = class_assigns(ctx.cls("web/http_headers.py", "_NameEncoder")).get("_caseMappings")
+        try:
+            case = const_eval(cm) if cm is not None else {}
+        except NotConst:
+            case = {}
 
-    def canon(nm):
-        r = b"-".join(w.capitalize() for w in nm.split(b"-"))
-        return case.get(r, r)
-    bad = sorted(n for n in names if canon(n) != n)
-    ctx.check(not bad, "credentials/default-names", "twisted.web.client._defaultSensitiveHeaders | canonical form",
-              f"{bad} are not in the canonical capitalisation Headers uses for stored names: the `not in` filter never matches them")
-    ca = mod.module_assign("_canonicalHeaderName")
-    ctx.check(ca is not None and src(ca) == "_nameEncoder.encode", "credentials/configured-names", "twisted.web.client._canonicalHeaderName", "_canonicalHeaderName is not Headers' own name canonicaliser")
-    init = ctx.func(CL, "RedirectAgent.__init__")
-    st = [s for s in walk_local(init) if isinstance(s, ast.Assign) and src(s.targets[0]) == "self._sensitiveHeaderNames"]
-    ok = False
-    if len(st) == 1 and isinstance(st[0].value, ast.Name):
-        loc = st[0].value.id
-        ds = local_assignments(init, loc)
-        built = len(ds) == 1 and isinstance(ds[0].value, (ast.SetComp, ast.ListComp)) and isinstance(ds[0].value.elt, ast.Call) and \
-            call_name(ds[0].value.elt) == "_canonicalHeaderName" and src(ds[0].value.generators[0].iter) == param_names(init)[3]
-        upd = any(isinstance(c, ast.Call) and call_name(c) in (f"{loc}.update",) and [src(a) for a in c.args] == ["_defaultSensitiveHeaders"] for c in walk_local(init))
-        ok = built and upd
-    ctx.check(ok, "credentials/configured-names", Q + "__init__", "configured sensitive names are not canonicalised like stored header names and united with the defaults")
+        def canon(nm):
+            r = b"-".join(w.capitalize() for w in nm.split(b"-"))
+            return case.get(r, r)
+        bad = sorted(n for n in names if canon(n) != n)
+        ctx.check(not bad, "credentials/default-names", "twisted.web.client._defaultSensitiveHeaders | canonical form",
+                  f"{bad} are not in the canonical capitalisation Headers uses for stored names: the `not in` filter never matches them")
+        ca = mod.module_assign("_canonicalHeaderName")
+        ctx.check(ca is not None and src(ca) == "_nameEncoder.encode", "credentials/configured-names", "twisted.web.client._canonicalHeaderName", "_canonicalHeaderName is not Headers' own name canonicaliser")
+        init = ctx.func(CL, "RedirectAgent.__init__")
+        st = [s for s in walk_local(init) if isinstance(s, ast.Assign) and src(s.targets[0]) == "self._sensitiveHeaderNames"]
+        ok = False
+        if len(st) == 1 and isinstance(st[0].value, ast.Name):
+            loc = st[0].value.id
+            ds = local_assignments(init, loc)
+            built = len(ds) == 1 and isinstance(ds[0].value, (ast.SetComp, ast.ListComp)) and isinstance(ds[0].value.elt, ast.Call) and \
+                call_name(ds[0].value.elt) == "_canonicalHeaderName" and src(ds[0].value.generators[0].iter) == param_names(init)[3]
+            upd = any(isinstance(c, ast.Call) and call_name(c) in (f"{loc}.update",) and [src(a) for a in c.args] == ["_defaultSensitiveHeaders"] for c in walk_local(init))
+            ok = built and upd
+        ctx.check(ok, "credentials/configured-names", Q + "__init__", "configured sensitive names are not canonicalised like stored header names and united with the defaults")
 
     # ---- (d) tables and method rule -----------------------------------------------------------------------
-    env = module_consts(ctx.mod("web/_responses.py"))
-    httpenv = {"http." + k: v for k, v in env.items()}
-    expected = {"RedirectAgent": ({301, 302, 307, 308}, {303}), "BrowserLikeRedirectAgent": ({307}, {301, 302, 303})}
-    for cname, (keep, switch_doc) in expected.items():
-        ca = class_assigns(ctx.cls(CL, cname))
-        tabs = {}
-        for t in ("_redirectResponses", "_seeOtherResponses"):
-            v = ca.get(t)
-            try:
-                tabs[t] = {_subst_http(e, env) for e in v.elts} if isinstance(v, (ast.List, ast.Tuple, ast.Set)) else None
-            except NotConst:
-                tabs[t] = None
-            ctx.need(tabs[t] is not None, f"{cname}.{t} constant table")
-        qq = f"twisted.web.client.{cname}."
-        ctx.check(not (tabs["_redirectResponses"] & tabs["_seeOtherResponses"]), "tables/disjoint", qq + "<tables>", "a status code is in both tables")
-        for code in (307, 308):
-            ctx.check(code not in tabs["_seeOtherResponses"], "tables/method-preserved-307-308", qq + f"_seeOtherResponses | {code}",
-                      f"{code} is handled as see-other: the method is switched to GET although {code} must preserve it (RFC 9110 15.4.8/15.4.9)")
-        for code in (301, 302, 303, 307, 308):
-            ctx.check(code in tabs["_redirectResponses"] | tabs["_seeOtherResponses"], "tables/complete", qq + f"<tables> | {code}", f"redirect status {code} is not followed")
-        extra = tabs["_seeOtherResponses"] - switch_doc - {307, 308}
-        ctx.check(not extra, "tables/documented-switch", qq + "_seeOtherResponses", f"{sorted(extra)} switch the method to GET although the class does not document it")
-        ctx.check(303 in tabs["_seeOtherResponses"], "tables/documented-switch", qq + "_seeOtherResponses | 303", "303 See Other does not switch to GET")
-    # method rule in _handleResponse
-    for n, c in hsites:
-        b = _bind(c.args, hr, 1)
-        m = b.get("method")
-        in_keep = any(src(gp.node(t).ast) == "response.code in self._redirectResponses" and lab == "T" for t, lab in gp.edge_guards(n))
-        in_switch = any(src(gp.node(t).ast) == "response.code in self._seeOtherResponses" and lab == "T" for t, lab in gp.edge_guards(n))
-        if in_keep:
-            ok = src(m) == "method" and any(isinstance(gp.node(t).ast, ast.Compare) and isinstance(gp.node(t).ast.ops[0], (ast.In, ast.NotIn)) and src(gp.node(t).ast.left) == "method" and
-                                            (isinstance(gp.node(t).ast.ops[0], ast.In) == (lab == "T")) and _const(gp.node(t).ast.comparators[0]) is not None and
-                                            set(_const(gp.node(t).ast.comparators[0])) == {b"GET", b"HEAD"} for t, lab in gp.edge_guards(n))
-            ctx.check(ok, "method/preserved", ctx.construct(qp, c), "a method-preserving redirect is followed with a changed method or for a method other than GET/HEAD")
-        elif in_switch:
-            ctx.check(_const(m) == b"GET", "method/see-other-get", ctx.construct(qp, c), "a see-other redirect is not followed with GET")
-        else:
-            ctx.violation("method/preserved", ctx.construct(qp, c), "a redirect is followed outside the two status tables")
-    rets = gp.ids(lambda x: x.kind == "stmt" and isinstance(x.ast, ast.Return) and src(x.ast.value) == "response")
-    ok = len(rets) == 1 and all(any(src(gp.node(t).ast) == f"response.code in self.{tb}" and lab == "F" for t, lab in gp.edge_guards(rets[0])) for tb in ("_redirectResponses", "_seeOtherResponses"))
-    ctx.check(ok, "method/preserved", qp + " | non-redirect", "a response is returned to the caller although its status is in a redirect table (or the reverse)")
+    with ctx.section("tables"):
+        pass
+        env = module_consts(ctx.mod("web/_responses.py"))
+        httpenv = {"http." + k: v for k, v in env.items()}
+        expected = {"RedirectAgent": ({301, 302, 307, 308}, {303}), "BrowserLikeRedirectAgent": ({307}, {301, 302, 303})}
+        for cname, (keep, switch_doc) in expected.items():
+            ca = class_assigns(ctx.cls(CL, cname))
+            tabs = {}
+            for t in ("_redirectResponses", "_seeOtherResponses"):
+                v = ca.get(t)
+                try:
+                    tabs[t] = {_subst_http(e, env) for e in v.elts} if isinstance(v, (ast.List, ast.Tuple, ast.Set)) else None
+                except NotConst:
+                    tabs[t] = None
+                ctx.need(tabs[t] is not None, f"{cname}.{t} constant table")
+            qq = f"twisted.web.client.{cname}."
+            ctx.check(not (tabs["_redirectResponses"] & tabs["_seeOtherResponses"]), "tables/disjoint", qq + "<tables>", "a status code is in both tables")
+            for code in (307, 308):
+                ctx.check(code not in tabs["_seeOtherResponses"], "tables/method-preserved-307-308", qq + f"_seeOtherResponses | {code}",
+                          f"{code} is handled as see-other: the method is switched to GET although {code} must preserve it (RFC 9110 15.4.8/15.4.9)")
+            for code in (301, 302, 303, 307, 308):
+                ctx.check(code in tabs["_redirectResponses"] | tabs["_seeOtherResponses"], "tables/complete", qq + f"<tables> | {code}", f"redirect status {code} is not followed")
+            extra = tabs["_seeOtherResponses"] - switch_doc - {307, 308}
+            ctx.check(not extra, "tables/documented-switch", qq + "_seeOtherResponses", f"{sorted(extra)} switch the method to GET although the class does not document it")
+            ctx.check(303 in tabs["_seeOtherResponses"], "tables/documented-switch", qq + "_seeOtherResponses | 303", "303 See Other does not switch to GET")
+        # method rule in _handleResponse
+        for n, c in hsites:
+            b = _bind(c.args, hr, 1)
+            m = b.get("method")
+            in_keep = any(src(gp.node(t).ast) == "response.code in self._redirectResponses" and lab == "T" for t, lab in gp.edge_guards(n))
+            in_switch = any(src(gp.node(t).ast) == "response.code in self._seeOtherResponses" and lab == "T" for t, lab in gp.edge_guards(n))
+            if in_keep:
+                ok = src(m) == "method" and any(isinstance(gp.node(t).ast, ast.Compare) and isinstance(gp.node(t).ast.ops[0], (ast.In, ast.NotIn)) and src(gp.node(t).ast.left) == "method" and
+                                                (isinstance(gp.node(t).ast.ops[0], ast.In) == (lab == "T")) and _const(gp.node(t).ast.comparators[0]) is not None and
+                                                set(_const(gp.node(t).ast.comparators[0])) == {b"GET", b"HEAD"} for t, lab in gp.edge_guards(n))
+                ctx.check(ok, "method/preserved", ctx.construct(qp, c), "a method-preserving redirect is followed with a changed method or for a method other than GET/HEAD")
+            elif in_switch:
+                ctx.check(_const(m) == b"GET", "method/see-other-get", ctx.construct(qp, c), "a see-other redirect is not followed with GET")
+            else:
+                ctx.violation("method/preserved", ctx.construct(qp, c), "a redirect is followed outside the two status tables")
+        rets = gp.ids(lambda x: x.kind == "stmt" and isinstance(x.ast, ast.Return) and src(x.ast.value) == "response")
+        ok = len(rets) == 1 and all(any(src(gp.node(t).ast) == f"response.code in self.{tb}" and lab == "F" for t, lab in gp.edge_guards(rets[0])) for tb in ("_redirectResponses", "_seeOtherResponses"))
+        ctx.check(ok, "method/preserved", qp + " | non-redirect", "a response is returned to the caller although its status is in a redirect table (or the reverse)")
 
 
 def _const(node):
